@@ -403,6 +403,12 @@ func tillCollisionScenario(prop string, seed uint64, idx int) *Scenario {
 		}
 		keep = append(keep, t)
 	}
+	// tillage cannot be deeper than the soil profile
+	for i := range keep {
+		if keep[i].Depth > 10*sc.Soil.N() {
+			keep[i].Depth = 10 * sc.Soil.N()
+		}
+	}
 	sc.Till = keep
 	sc.TillCollision = true
 	return sc
